@@ -114,6 +114,8 @@ func checkC10(c *core.Ctx) {
 	checkUnNextTypestate(c, p)
 	// ---- R3
 	checkUnreadByte(c, p)
+	// ---- R6
+	checkErrorRecording(c, p)
 	// ---- R4
 	checkDecodeIntegerFence(c, p)
 	// ---- R5
@@ -598,4 +600,100 @@ func constInt(info *types.Info, e ast.Expr) (int, bool) {
 		return 0, false
 	}
 	return v, true
+}
+
+// checkErrorRecording: R6. Every function of the tokenizer that reads from the
+// underlying reader records a non-EOF failure with addError(err) and stops;
+// the clean end-of-input sentinel addError(io.EOF) is only added where the
+// error was tested to be io.EOF.
+func checkErrorRecording(c *core.Ctx, p *load.Prog) {
+	pkg := p.Bebop()
+	n := 0
+	for _, fd := range funcsOfFiles(p, pkg, "tokenize.go", "token_tree.go") {
+		reads := false
+		ast.Inspect(fd.Body, func(m ast.Node) bool {
+			as, ok := m.(*ast.AssignStmt)
+			if !ok || len(as.Rhs) != 1 {
+				return true
+			}
+			call, ok := as.Rhs[0].(*ast.CallExpr)
+			if !ok {
+				return true
+			}
+			fn := wire.Canon(call.Fun)
+			if fn == "tr.readByte" || fn == "tr.r.ReadRune" || fn == "tr.r.ReadBytes" {
+				if len(as.Lhs) >= 2 {
+					if id, ok := as.Lhs[len(as.Lhs)-1].(*ast.Ident); ok && id.Name == "err" {
+						reads = true
+					}
+				}
+			}
+			return true
+		})
+		if !reads {
+			continue
+		}
+		n++
+		name := fd.Name.Name
+		// (a) some `err != nil` arm records the error itself and returns
+		recorded := false
+		ast.Inspect(fd.Body, func(m ast.Node) bool {
+			ifs, ok := m.(*ast.IfStmt)
+			if !ok {
+				return true
+			}
+			cs := wire.Canon(ifs.Cond)
+			if (cs == "err != nil" || strings.HasPrefix(cs, "err != nil &&")) && endsInReturn(ifs.Body) {
+				if containsCall(ifs.Body, func(call *ast.CallExpr) bool {
+					return isMethodCall(call, "tr", "addError") && len(call.Args) == 1 && wire.Canon(call.Args[0]) == "err"
+				}) {
+					recorded = true
+				}
+			}
+			return true
+		})
+		c.Check("R6", name+" records a failing read of the underlying reader as an error", p.Pos(fd.Pos()), recorded,
+			"no `if err != nil { tr.addError(err); return }` arm follows the read: a reader failure is lost or mistaken for the end of the input")
+		// (b) the EOF sentinel is added only under err == io.EOF
+		okSentinel := true
+		var walk func(nd ast.Node, underEOF bool)
+		walk = func(nd ast.Node, underEOF bool) {
+			ast.Inspect(nd, func(m ast.Node) bool {
+				switch x := m.(type) {
+				case *ast.IfStmt:
+					isEOF := wire.Canon(x.Cond) == "err == io.EOF"
+					if x.Init != nil {
+						walk(x.Init, underEOF)
+					}
+					walk(x.Body, underEOF || isEOF)
+					if x.Else != nil {
+						walk(x.Else, underEOF)
+					}
+					return false
+				case *ast.CaseClause:
+					isEOF := false
+					for _, e := range x.List {
+						cs := wire.Canon(e)
+						if cs == "err == io.EOF" || cs == "io.EOF" {
+							isEOF = true
+						}
+					}
+					for _, st := range x.Body {
+						walk(st, underEOF || (isEOF && len(x.List) == 1))
+					}
+					return false
+				case *ast.CallExpr:
+					if isMethodCall(x, "tr", "addError") && len(x.Args) == 1 && wire.Canon(x.Args[0]) == "io.EOF" && !underEOF {
+						okSentinel = false
+					}
+				}
+				return true
+			})
+		}
+		walk(fd.Body, false)
+		c.Check("R6", name+" adds the end-of-input sentinel only for io.EOF", p.Pos(fd.Pos()), okSentinel,
+			"addError(io.EOF) is reachable for an error that was not tested to be io.EOF: Next() pops that sentinel and reports a clean end of input, so a failing reader truncates the File without an error")
+	}
+	c.Count("tokenizer_read_functions", n)
+	c.Floor("tokenizer_read_functions", 5)
 }
